@@ -6,6 +6,7 @@ Oracle: runpp before and after each transformation on mapped buses/elements."""
 import copy, json, math, os, glob
 from fractions import Fraction
 import numpy as np
+import pandas as pd
 import pandapower as pp
 import pandapower.toolbox as tb
 from vf import coqrun as cq, nets
@@ -59,6 +60,91 @@ def gen_net(rng, shuffle=None):
     net.line["c_nf_per_km"] = [rng.choice([0.0, 0.0, 160.0]) for _ in net.line.index]
     net.line["g_us_per_km"] = 0.0
     return net
+
+
+def rich_net(rng):
+    """net for the structural transformations: coinciding indices across tables (bus / line / trafo / switch ids drawn
+    from the same small range), f_hz in {50, 60, 16.7}, sn_mva in {1, 10, 100}, line capacitance, open and closed switches of
+    all kinds (b, l, t, t3), out-of-service lines / trafos / loads / buses, sometimes an unsupplied second island"""
+    shuffle = rng.random() < 0.4
+    net = nets.rand_net(rng, nb=rng.randint(4, 7), chords=rng.randint(1, 2), n_trafo=2, shuffle_index=shuffle,
+                        n_trafo3w=rng.choice([0, 0, 1]), oos=rng.choice([0.0, 0.15, 0.3]), line_params=True)
+    if len(net.trafo3w):                       # same vector group as the parallel 2W transformers (no circulating currents)
+        net.trafo3w["shift_mv_degree"] = 150.0
+        net.trafo3w["shift_lv_degree"] = 150.0
+    net.f_hz = rng.choice([50.0, 50.0, 60.0, 16.7])
+    net.sn_mva = rng.choice([1.0, 1.0, 10.0, 100.0])
+    net.line["c_nf_per_km"] = [rng.choice([0.0, 160.0, 256.0]) for _ in net.line.index]
+    mvb = [int(x) for x in net.bus.index if net.bus.vn_kv.at[x] == 20.0]
+    free = [i for i in range(0, 40) if i not in set(net.bus.index)]
+    # a bus behind a closed bus-bus switch (fusable), and a normally-open tie
+    nbus = pp.create_bus(net, 20.0, index=rng.choice(free[:6]))
+    pp.create_load(net, nbus, 0.25, 0.125)
+    pp.create_switch(net, rng.choice(mvb), nbus, et="b", closed=True)
+    if len(mvb) > 2 and rng.random() < 0.6:
+        a, b = rng.sample(mvb, 2)
+        pp.create_switch(net, a, b, et="b", closed=False)
+    # line switches: mostly closed, some open; indices of lines / trafos / buses coincide on purpose
+    for li in rng.sample(list(net.line.index), min(len(net.line), rng.randint(1, 3))):
+        pp.create_switch(net, int(net.line.at[li, rng.choice(["from_bus", "to_bus"])]), int(li), et="l", closed=rng.random() < 0.5)
+    for ti in net.trafo.index:
+        if rng.random() < 0.6:
+            pp.create_switch(net, int(net.trafo.at[ti, rng.choice(["hv_bus", "lv_bus"])]), int(ti), et="t",
+                             closed=(ti == net.trafo.index[0]) or rng.random() < 0.5)
+    for ti in net.trafo3w.index:
+        if rng.random() < 0.7:
+            pp.create_switch(net, int(net.trafo3w.at[ti, rng.choice(["mv_bus", "lv_bus"])]), int(ti), et="t3",
+                             closed=rng.random() < 0.5)
+    for i in net.load.index:
+        if rng.random() < 0.15:
+            net.load.at[i, "in_service"] = False
+    if rng.random() < 0.3:                       # unsupplied island
+        i1, i2 = [pp.create_bus(net, 20.0) for _ in range(2)]
+        pp.create_line_from_parameters(net, i1, i2, 1.0, 0.25, 0.125, 160.0, 0.5)
+        pp.create_load(net, i2, 0.125, 0.0)
+    return net
+
+
+def component_of_ext_grid(net):
+    """buses of the graph component (switch states ignored, every branch element an edge) that holds the ext_grids"""
+    adj = {int(b): set() for b in net.bus.index}
+    def edge(a, b):
+        adj[int(a)].add(int(b)); adj[int(b)].add(int(a))
+    for t, cols in (("line", ("from_bus", "to_bus")), ("trafo", ("hv_bus", "lv_bus")), ("impedance", ("from_bus", "to_bus"))):
+        for a, b in zip(net[t][cols[0]].values, net[t][cols[1]].values):
+            edge(a, b)
+    for h, m_, l in zip(net.trafo3w.hv_bus.values, net.trafo3w.mv_bus.values, net.trafo3w.lv_bus.values):
+        edge(h, m_); edge(h, l)
+    for b, e, et in zip(net.switch.bus.values, net.switch.element.values, net.switch.et.values):
+        if et == "b":
+            edge(b, e)
+    seen, todo = set(), [int(b) for b in net.ext_grid.bus.values]
+    while todo:
+        x = todo.pop()
+        if x not in seen:
+            seen.add(x)
+            todo.extend(adj[x] - seen)
+    return sorted(seen)
+
+
+def structural_transformations(rng, net):
+    out = []
+    comp = component_of_ext_grid(net)
+    out.append(("select_subnet_supplied_island", comp,
+                lambda n: ("newnet", tb.select_subnet(n, list(comp), include_results=False))))
+    closed_bb = [(int(b), int(e)) for b, e, et, c in zip(net.switch.bus.values, net.switch.element.values, net.switch.et.values,
+                                                      net.switch.closed.values) if et == "b" and c and b != e]
+    if closed_bb:
+        a, b = rng.choice(closed_bb)
+        if rng.random() < 0.5:
+            a, b = b, a
+        out.append(("fuse_buses_closed_switch", [a, b], lambda n, a=a, b=b: tb.fuse_buses(n, a, [b]) or {b: a}))
+    out.append(("drop_out_of_service_elements", [], lambda n: tb.drop_out_of_service_elements(n)))
+    out.append(("drop_inactive_elements", [], lambda n: tb.drop_inactive_elements(n)))
+    out.append(("create_continuous_elements_index", [], lambda n: _cont(n)))
+    if len(net.xward):
+        out.append(("replace_xward_by_internal_elements", [], lambda n: tb.replace_xward_by_internal_elements(n)))
+    return out
 
 
 def transformations(rng, net):
@@ -221,6 +307,75 @@ def run(ctx):
             if max(d1, d2) > TOL:
                 ctx.violation("spec", "merge_nets of disjoint nets changes bus results by %.3g" % max(d1, d2),
                               {"net1": pp.to_json(net), "net2": pp.to_json(net2)})
+    structural_oracle(ctx, rng)
+
+
+def structural_oracle(ctx, rng):
+    for k in range(ctx.n(40, 450)):
+        net = rich_net(rng)
+        b20 = [int(x) for x in net.bus.index if net.bus.vn_kv.at[x] == 20.0]
+        if rng.random() < 0.4:
+            pp.create_xward(net, rng.choice(b20), 0.125, 0.0625, 0.25, 0.125, 0.5, 1.0, 1.0)
+        try:
+            pp.runpp(net, numba=False)
+        except Exception:
+            ctx.count("structural_base_not_converged")
+            continue
+        before = vm(net)
+        if any(v == v and not 0.7 < v < 1.3 for v, _ in before.values()):
+            ctx.count("structural_base_implausible")      # a low-voltage solution of the NR iteration: not a reference
+            continue
+        has_open_t3 = any(et == "t3" and not c for et, c in zip(net.switch.et.values, net.switch.closed.values))
+        for name, sel, fn in structural_transformations(rng, net):
+            work = copy.deepcopy(net)
+            case = {"transformation": name, "targets": sel, "net": pp.to_json(net)}
+            known = None
+            if name == "drop_inactive_elements":
+                # a trafo3w in service with one side unsupplied (e.g. behind an open switch) and the others supplied
+                for h, m_, l, ins in zip(net.trafo3w.hv_bus.values, net.trafo3w.mv_bus.values, net.trafo3w.lv_bus.values,
+                                         net.trafo3w.in_service.values):
+                    nan = [before[int(b)][0] != before[int(b)][0] for b in (h, m_, l)]
+                    if ins and any(nan) and not all(nan):
+                        known = "C23-drop-inactive-trafo3w-open-side"
+            try:
+                mapping = fn(work)
+                if isinstance(mapping, tuple) and mapping[0] == "newnet":
+                    work, mapping = mapping[1], None
+                pp.runpp(work, numba=False)
+            except Exception as e:
+                ctx.count("raised:%s:%s" % (name, type(e).__name__))
+                ctx.case({"t": name, "k": k, "net": case["net"][:1500]}, nontrivial=False)
+                ctx.violation("spec", "%s raises %s: %s" % (name, type(e).__name__, str(e)[:200]), case)
+                continue
+            dev = same_bus_results(before, vm(work), mapping if isinstance(mapping, dict) else None)
+            ctx.case({"t": name, "targets": sel, "k": k, "net": case["net"][:3000]}, nontrivial=True)
+            ctx.count("oracle:" + name)
+            if dev > TOL and known == "C23-select-subnet-drops-t3-switches":
+                # exactly the recorded defect?  put the lost t3 switches back: the deviation must vanish
+                try:
+                    w3 = copy.deepcopy(work)
+                    lost = net.switch[(net.switch.et == "t3") & net.switch.bus.isin(w3.bus.index) &
+                                      net.switch.element.isin(w3.trafo3w.index) & ~net.switch.index.isin(w3.switch.index)]
+                    w3.switch = pd.concat([w3.switch, lost])
+                    pp.runpp(w3, numba=False)
+                    if same_bus_results(before, vm(w3)) > TOL:
+                        known = None
+                except Exception:
+                    known = None
+            if dev > TOL and known == "C23-xward-internal-elements-sn-mva":
+                # exactly the recorded defect?  rescale the created impedances by net.sn_mva: the deviation must vanish
+                try:
+                    w3 = copy.deepcopy(work)
+                    newimp = [i for i in w3.impedance.index if i not in net.impedance.index]
+                    w3.impedance.loc[newimp, ["rft_pu", "xft_pu", "rtf_pu", "xtf_pu"]] *= float(net.sn_mva)
+                    pp.runpp(w3, numba=False)
+                    if same_bus_results(before, vm(w3)) > TOL:
+                        known = None
+                except Exception:
+                    known = None
+            if dev > TOL:
+                ctx.count("violation:%s:%s" % (known or "spec", name))
+                ctx.violation(known or "spec", "%s changes bus results by %.3g (f_hz=%s sn_mva=%s)" % (name, dev, net.f_hz, net.sn_mva), case)
 
 
 def replay(ctx, rec):
